@@ -21,6 +21,12 @@ def shard_product(*dims):
     return out
 
 
+def CHARREF_SHARDS(n):
+    """decimal: one shard per digit count; hex: also split by letter case and text / attribute"""
+    return (["hex=0;digits=%d" % d for d in range(n)] +
+            ["hex=1;digits=%d;upper=%d;where=%d" % (d, u, w) for d in range(n) for u in range(2) for w in range(2)])
+
+
 PROPS = {
     "C01": {
         "claim": "serialise-then-parse through the public API (to_string, parse) returns the same tree: character data "
@@ -148,6 +154,9 @@ PROPS["C02"] = {
         H("h_c02_names", shards={"quick": shard_choose("c0", 8), "thorough": shard_choose("c0", 8)}),
         H("h_c02_fragment", shards={"quick": shard_choose("k", 8), "thorough": shard_choose("k", 8)}),
         H("h_c02_xmlid", {"N": 3}, {"N": 4}, shards={"quick": shard_choose("len", 4), "thorough": shard_choose("len", 5)}),
+        # shared with C03: namespace scoping between top-level siblings of a fragment; character references by value
+        H("h_c03_fragment_scope", shards={"quick": shard_choose("shape", 3), "thorough": shard_choose("shape", 3)}),
+        H("h_c03_charref_value", {"DIGITS": 5}, {"DIGITS": 7}, shards={"quick": CHARREF_SHARDS(5), "thorough": CHARREF_SHARDS(7)}),
     ],
     "bounds": {"quick": "character-data spellings of <=3 arbitrary chars at the kernel; two-piece spellings (literal char, entity, "
                         "char reference, CR LF, CDATA) end to end in text and in both quote styles of attributes; 8x8 declaration "
@@ -163,8 +172,9 @@ PROPS["C03"] = {
     "harnesses": [
         H("h_c03_content_kernel", {"N": 3}, {"N": 5}, shards={"quick": shard_choose("len", 4), "thorough": shard_choose("len", 6)}),
         H("h_c03_tags", {"PIECES": 3}, {"PIECES": 4}, shards={"quick": shard_product(("fragment", 2), ("k0", 7)), "thorough": shard_product(("fragment", 2), ("k0", 7), ("k1", 7))}),
-        H("h_c03_rejects", shards={"quick": shard_choose("k", 12), "thorough": shard_choose("k", 12)}),
+        H("h_c03_rejects", shards={"quick": shard_choose("k", 13), "thorough": shard_choose("k", 13)}),
         H("h_c03_fragment_scope", shards={"quick": shard_choose("shape", 3), "thorough": shard_choose("shape", 3)}),
+        H("h_c03_charref_value", {"DIGITS": 5}, {"DIGITS": 7}, shards={"quick": CHARREF_SHARDS(5), "thorough": CHARREF_SHARDS(7)}),
         H("h_c03_total", {"N": 2}, {"N": 3}, shards={"quick": shard_product(("pre", 8), ("fragment", 2)), "thorough": shard_product(("pre", 8), ("fragment", 2))}),
     ],
     "bounds": {"quick": "character data of <=3 arbitrary chars with any base offset <=2^40; every sequence of 3 tag/text/comment "
